@@ -33,7 +33,8 @@ func (self *Compiler) popScope() {
 }
 
 func (self *Compiler) mangleFn(input string) string {
-	mangled := fmt.Sprintf("@%s_%s", self.currModule, input)
+	// '.' cannot occur in an identifier: (module, function) pairs are mangled injectively.
+	mangled := fmt.Sprintf("@%s.%s", self.currModule, input)
 	return mangled
 }
 
@@ -59,7 +60,8 @@ func (self *Compiler) mangleVar(input string) string {
 		self.varNameMangle[input]++
 	}
 
-	mangled := fmt.Sprintf("@%s_%s%d", self.currModule, input, cnt)
+	// The counter is separated from the identifier: `a1` + 0 and `a` + 10 must not collide.
+	mangled := fmt.Sprintf("@%s.%s.%d", self.currModule, input, cnt)
 	(*self.currScope)[input] = mangled
 
 	return mangled
@@ -74,7 +76,7 @@ func (self *Compiler) mangleLabel(input string) string {
 		self.labelNameMangle[input]++
 	}
 
-	mangled := fmt.Sprintf("%s_%s%d", self.currModule, input, cnt)
+	mangled := fmt.Sprintf("%s.%s.%d", self.currModule, input, cnt)
 	return mangled
 }
 
